@@ -639,6 +639,9 @@ func run(c *hk.Ctx) {
 		"legacy":     func(start int64) backend { return newLegacy(c, start) },
 		"stdio":      func(start int64) backend { return newStdio(c, start) },
 	}
+	joinGaps := startGaps(c) // the time-gapped histories run beside everything else
+	defer joinGaps()
+	runSizes(c)
 	// fixed histories
 	fixedTwoSessions(c, mk["streamable"](0), 0)
 	fixedTwoSessions(c, mk["legacy"](0), 0)
